@@ -185,6 +185,13 @@ theorem stepm_conv {k st p d : Nat} {g : Nat → Nat} {s : Shape} (stk tr)
 theorem padEvenOk_iff (n : Nat) : padEvenOk n = true ↔ (n % 2 = 0 ∨ 2 ≤ n) := by
   simp only [padEvenOk, reflectOk, Bool.or_eq_true, Bool.and_eq_true, beq_iff_eq, decide_eq_true_eq]; omega
 
+theorem dwtOk_of_even {n : Nat} (h : n % 2 = 0) : dwtOk n = true := by
+  have : (n + 1) / 2 = n / 2 := by omega
+  simp [dwtOk, this]
+theorem dwtOut_of_even {n : Nat} (h : n % 2 = 0) : dwtOut n = n / 2 := by
+  have : (n + 1) / 2 = n / 2 := by omega
+  simp [dwtOut, this]
+
 theorem convOut_same {k p d m : Nat} (hk : d * (k - 1) = 2 * p) (hm : 1 ≤ m) : convOut k 1 p d m = m := by
   simp only [convOut, Nat.div_one]; omega
 
